@@ -846,8 +846,17 @@ def judge_records(ctx, recs, D, skipped=None, tag=""):
     return rt, index, tallies, valid, unspec, nb
 
 
+def _preimport():
+    """import what the workers use before forking (every problem gets a fresh process)"""
+    import unified_planning.io  # noqa: F401
+    import unified_planning.engines.sequential_simulator  # noqa: F401
+    import unified_planning.engines.plan_validator  # noqa: F401
+    import unified_planning.interop.from_pddl  # noqa: F401
+
+
 def run(ctx):
     q = ctx.quick
+    _preimport()
     counts = dict(num=22, ai=18, bnd=8, tmp=20) if q else dict(num=260, ai=200, bnd=60, tmp=200)
     D = 3 if q else 4
     L = 3 if q else 5
@@ -909,6 +918,7 @@ def replay(ctx, data):
     job = data["data"].get("job")
     if not job:
         raise MachineryError("replay file without a job")
+    _preimport()
     with Pool(1, maxtasksperchild=1) as pool:
         recs = pool.map(worker, [tuple(job)])
     if recs[0]["skip"]:
@@ -935,6 +945,7 @@ def _first(recs, pred):
 def selftest(ctx):
     """vacuity: corrupting ONE recorded field of a clean round trip makes the judges reject it with the
     expected clause (one corruption per clause family); the uncorrupted records are accepted"""
+    _preimport()
     rng = random.Random(12345)
     corpus = make_corpus(rng, dict(num=10, ai=0, bnd=0, tmp=24))
     jobs = [(i + 1, sl, P, 3, 4, 777 + i) for i, (sl, P) in enumerate(corpus)]
